@@ -120,7 +120,8 @@ def hash_(case, ctx):
 
 mac_case = st.fixed_dictionaries({
     "alg": st.sampled_from(sorted(ALGS)), "n": _len_strategy(2048), "pat": st.integers(0, 4), "seed": st.integers(0, 1 << 32),
-    "klen": st.one_of(st.integers(1, 300), st.sampled_from([1, 12, 31, 32, 33, 63, 64, 65, 127, 128, 129, 200])),
+    # klen 0: RFC 2104 defines HMAC for the empty key; the generic hmac_init documents its refusal (explicit test), sm3_hmac_init takes it
+    "klen": st.one_of(st.integers(0, 300), st.sampled_from([0, 1, 12, 31, 32, 33, 63, 64, 65, 127, 128, 129, 200])),
     "cuts": st.lists(st.integers(0, 2048), max_size=5)})
 
 
@@ -141,7 +142,21 @@ def hmac_(case, ctx):
     dg.restype = ctypes.c_void_p
     d = dg()
     hc = obj("HMAC_CTX")
-    kb = Buf.of(key)
+    kb = Buf.of(key) if key else Buf(1, fill=0)
+    if klen == 0:
+        out = Buf(dl, fill=0); ol = ctypes.c_size_t(0)
+        r1 = l.hmac(d, kb, 0, Buf.of(data), n, out, ctypes.byref(ol))
+        # refusal is the documented behaviour; if the generic interface ever accepts the empty key it has to compute the standard value
+        ctx.check(r1 != 1 or out.raw() == exp, "one-shot hmac(%s) accepts the empty key and returns %s, RFC 2104 gives %s" % (alg, out.raw().hex(), exp.hex()),
+                  "hmac/oneshot/empty-key")
+        if alg == "sm3":
+            sc = obj("SM3_HMAC_CTX")
+            l.sm3_hmac_init(sc, kb, 0)
+            _feed(l.sm3_hmac_update, sc, data, parts)
+            out = Buf(32, fill=0)
+            l.sm3_hmac_finish(sc, out)
+            ctx.check(out.raw() == exp, "sm3_hmac with the empty key, chunks %s of %d: %s != %s" % (parts, n, out.raw().hex(), exp.hex()), "sm3_hmac/empty-key")
+        return
     ctx.check(l.hmac_init(hc, d, kb, klen) == 1, "hmac_init(%s, klen=%d) failed" % (alg, klen), "hmac/init")
     rets = _feed(l.hmac_update, hc, data, parts)
     ctx.check(all(r in (0, 1) for r in rets), "hmac_update returned %s" % rets, "hmac/update-ret")
@@ -195,10 +210,10 @@ def sm3_kdf(z, klen):
 
 kdf_case = st.fixed_dictionaries({
     "alg": st.sampled_from(sorted(ALGS)), "seed": st.integers(0, 1 << 32),
-    "passlen": st.integers(1, 90), "saltlen": st.integers(1, 64), "iters": st.one_of(st.integers(1, 40), st.sampled_from([1, 2, 1000])),
+    "passlen": st.integers(0, 90), "saltlen": st.integers(0, 64), "iters": st.one_of(st.integers(1, 40), st.sampled_from([1, 2, 1000])),
     "outlen": st.one_of(st.integers(1, 100), st.sampled_from([1, 31, 32, 33, 63, 64, 65, 96])),
-    "hsalt": st.integers(0, 100), "ikm": st.integers(1, 100), "info": st.integers(0, 100), "L": st.integers(1, 8 * 64),
-    "zlen": st.integers(1, 200), "klen": st.integers(0, 200), "cuts": st.lists(st.integers(0, 200), max_size=3)})
+    "hsalt": st.integers(0, 100), "ikm": st.integers(0, 100), "info": st.integers(0, 100), "L": st.integers(1, 8 * 64),
+    "zlen": st.integers(0, 200), "klen": st.integers(0, 200), "cuts": st.lists(st.integers(0, 200), max_size=3)})
 
 
 @P.sub("kdf", kdf_case, quick=2500, thorough=80000, variants=VAR)
